@@ -102,7 +102,8 @@ pub fn canary(ctx: &mut Ctx) {
         let blocking = placed.iter().any(|(p, k)| {
             let is_out = match cmd { 1 => p != "out.part4.pna" || after.contains_key("out.part4.pna") && *k != 2, _ => true };
             // dangling symlink at a plain archive path does not "exist" (the new file is created at the link target): not a conflict for create/concat
-            let dangling_ok = *k == 4 && matches!(cmd, 0 | 5);
+            // … and for a multi-part `create --split` the base path is not written at all
+            let dangling_ok = *k == 4 && (matches!(cmd, 0 | 5) || (cmd == 1 && p == "out.pna" && after.contains_key("out.part2.pna")));
             // directory canary at a directory destination is fine
             let dir_dir = cmd == 6 && *k == 2 && (p == "x/t" || p == "x/t/d");
             is_out && !dangling_ok && !dir_dir
